@@ -11,7 +11,7 @@ func init() {
 	register("C03", "Decided: advance-iff-emit on every handler path, constant size rules vs emitter lengths, size-model terms and prefix predicates, data-directive lockstep, label/$ = LOC, pass-2 hand-over. Not decided: equality of the two size computations on every operand value.",
 		ruleP8, ruleW3, ruleS3, ruleS3e, ruleF8size, ruleZ3, ruleP7, ruleP7e, ruleF2, ruleN5, ruleP5, ruleP3, ruleF8a, ruleM2, ruleZ3b, ruleO3, ruleC2P, ruleF8o, ruleS3j, ruleZ3c, ruleF6, ruleE1, ruleE1b, ruleE3, ruleE3s, ruleU8p, ruleS3f, ruleS16l, ruleA18)
 	register("C04", "Decided: condition codes, opcode bytes, length-adjusted displacement, range test on the narrowed value, little-endian fields, origin in the current address, mode guards. Not decided: that pass 1 leaves the target where the emitter assumes it.",
-		ruleT3, ruleT3k, ruleBranch, ruleI1, ruleF6, ruleS3, ruleS3e, ruleS3j, ruleE1, ruleE1b, ruleE3, ruleE3s, ruleU8p, ruleU7, ruleS3f)
+		ruleT3, ruleT3k, ruleBranch, ruleI1, ruleF6, ruleS3, ruleS3e, ruleS3j, ruleE1, ruleE1b, ruleE3, ruleE3s, ruleU8p, ruleU7, ruleS3f, ruleZ4)
 	register("C05", "Decided: per-clause lockstep of size and emitted elements, lane order, decimal hand-off, RESB flow, non-emitting statements, every operand clause contributes or diagnoses, ALIGNB address basis.",
 		ruleP7, ruleP7e, ruleF2, ruleN5, ruleP2b, ruleP8, ruleW3, ruleE10, ruleF6, ruleO3, ruleT7, ruleT7h, ruleS5s, ruleE1, ruleE1b, ruleE3, ruleE3s, ruleL14r)
 	register("C06", "Decided: precedence layering of the grammar, operator table of the evaluator, literal bases. Not decided: 64-bit overflow semantics.",
